@@ -255,6 +255,20 @@ func (c *Ctx) evalMod(env *SpecEnv, x ast.Expr, out *[]modEntry) {
 			*out = append(*out, modEntry{all: true})
 			return
 		}
+		// a captured variable of a function literal: its cell
+		if sa, ok := env.vars[v.Name].(SrcAddr); ok {
+			if b, ok := sa.P.(Scalar); ok {
+				pt := b.Ty.Underlying().(*types.Pointer)
+				if isAggregate(pt.Elem()) {
+					c.allFieldEntries(b.T, pt.Elem(), out)
+					return
+				}
+				for _, cp := range c.ar.comps(pt.Elem()) {
+					*out = append(*out, modEntry{heap: fieldHeapName("cell", typeName(pt.Elem()), cp.Path), sort: fmt.Sprintf("(Array Ref %s)", cp.S), kind: modSingle, ref: b.T})
+				}
+				return
+			}
+		}
 		// a bare pointer-typed name: all fields
 		base := env.eval(v)
 		if b, ok := base.(Scalar); ok {
